@@ -20,6 +20,9 @@ def run(ctx, replay):
     ctx.model_check("MCMasterAssign", "MCMasterAssign.cfg", timeout=1200)
     # M part B: every sequence of node up/down, create/grow/drop and event processing within bounds
     ctx.model_check("MCMaster", "MCMaster_thorough.cfg" if thorough else "MCMaster.cfg", timeout=3000)
+    # sensitivity: a handler that goes on after a failed read of the stored assignment (seeded change C18f) re-assigns
+    # every shard of an existing database: must violate GrowKeepsExisting
+    ctx.model_check("MCMaster", "MCMaster_dev_readfault.cfg", expect="violation", timeout=900)
     tr = os.path.join(ctx.scratch, "master.ndjson")
     nh, steps = (1500, 90) if thorough else (150, 70)
     summ, rc, _ = ctx.run_vdrive(["master", "--seed", ctx.seed, "--histories", nh, "--steps", steps, "--out", tr], timeout=3000)
@@ -73,6 +76,7 @@ def run(ctx, replay):
     vcore.corrupt_selftest(ctx, "MasterTrace", "MasterTrace.cfg", tr, wrong_leader, "an online shard reports another leader")
     vcore.corrupt_selftest(ctx, "MasterTrace", "MasterTrace.cfg", tr, duplicate_replica, "a shard's replicas are not distinct")
     ctx.assumptions += [
+        "repository faults are transient and injected by the in-memory repository while ONE database-config event is handled: the read of the stored assignment fails, or the first / second write of the assignment fails (events `Process` with `fault`)",
         "the repository is an in-memory implementation; the harness plays the discovery watcher (one event per repository write, processed one at a time through the verif hook)",
         "the random start index / replica shift of the code are bound existentially: some pair must explain the stored assignment",
     ]
